@@ -304,16 +304,49 @@ func c20Serve(c *Ctx) {
 		"the signal task is appended before the readiness count is taken", "readiness counts the wrong number of tasks")
 
 	// R-C20-4 readiness
-	for _, cl := range sv.AnonFuncs {
-		var seq []string
-		var readyNotify bool
-		for _, b := range cl.Blocks {
-			for _, in := range b.Instrs {
+	// the goroutines Serve starts: `go f(...)`, and the functions handed to eg.Go — closures, method
+	// values or plain functions; each is enumerated with helpers in line
+	var started []*ssa.Function
+	addStarted := func(f *ssa.Function) {
+		if f == nil || f.Blocks == nil {
+			return
+		}
+		for _, g := range started {
+			if g == f {
+				return
+			}
+		}
+		started = append(started, f)
+	}
+	for _, ci := range an.CallsIn(sv) {
+		if g, isGo := ci.(*ssa.Go); isGo {
+			addStarted(an.StaticCallee(&g.Call))
+			continue
+		}
+		if fo := an.CalleeObj(ci.Common()); fo != nil && fo.Name() == "Go" && fo.Pkg() != nil && fo.Pkg().Path() == "golang.org/x/sync/errgroup" {
+			args := ci.Common().Args
+			switch v := args[len(args)-1].(type) {
+			case *ssa.MakeClosure:
+				addStarted(v.Fn.(*ssa.Function))
+			case *ssa.Function:
+				addStarted(v)
+			}
+		}
+	}
+	for _, cl := range started {
+		ps := c.pathsO("R-C20-4", cl, an.PathOpts{})
+		for _, p := range ps {
+			if p.Ret == nil {
+				continue
+			}
+			var seq []string
+			var readyNotify bool
+			p.Instrs(func(in ssa.Instruction) {
 				switch x := in.(type) {
 				case ssa.CallInstruction:
 					f := an.CalleeObj(x.Common())
-					if f == nil {
-						continue
+					if f == nil || f.Pkg() == nil {
+						return
 					}
 					_, isDefer := in.(*ssa.Defer)
 					switch {
@@ -326,7 +359,7 @@ func c20Serve(c *Ctx) {
 							seq = append(seq, "wg.Done")
 						}
 					case f.Name() == "Notify" && strings.HasSuffix(f.Pkg().Path(), "sdnotify"):
-						e := c.XO.Of(x.Common().Args[len(x.Common().Args)-1])
+						e := p.Of(x.Common().Args[len(x.Common().Args)-1])
 						if e.Contains(func(y *an.Expr) bool { return y.IsConst(`"READY=1"`) }) {
 							readyNotify = true
 							seq = append(seq, "Notify(Ready)")
@@ -336,22 +369,22 @@ func c20Serve(c *Ctx) {
 					}
 				case *ssa.UnOp:
 					if x.Op == token.ARROW {
-						e := c.XO.Of(x.X)
+						e := p.Of(x.X)
 						if exprCallIs(e, PkgCorerad, "Task", "Ready") {
 							seq = append(seq, "<-t.Ready()")
 						}
 					}
 				}
+			})
+			s := strings.Join(seq, ",")
+			if readyNotify {
+				c.R.Check(strings.HasPrefix(s, "wg.Wait,") && len(ps) == 1, "R-C20-4", c.fname(cl)+":ready-after-all", c.fname(cl), c.pos(cl.Pos()), "sequence ["+s+"]",
+					"wg.Wait() precedes the READY notification (straight-line)", "readiness announced before every task reported ready")
 			}
-		}
-		s := strings.Join(seq, ",")
-		if readyNotify {
-			c.R.Check(strings.HasPrefix(s, "wg.Wait,") && len(cl.Blocks) == 1, "R-C20-4", c.fname(cl)+":ready-after-all", c.fname(cl), c.pos(cl.Pos()), "sequence ["+s+"]",
-				"wg.Wait() precedes the READY notification (straight-line)", "readiness announced before every task reported ready")
-		}
-		if strings.Contains(s, "wg.Done") {
-			c.R.Check(s == "defer wg.Done,<-t.Ready(),Notify" || s == "defer wg.Done,<-t.Ready()", "R-C20-4", c.fname(cl)+":done-after-ready", c.fname(cl), c.pos(cl.Pos()), "sequence ["+s+"]",
-				"each per-task goroutine defers wg.Done() and receives from t.Ready() before returning", "a task is counted ready without having reported ready")
+			if strings.Contains(s, "wg.Done") {
+				c.R.Check(s == "defer wg.Done,<-t.Ready(),Notify" || s == "defer wg.Done,<-t.Ready()", "R-C20-4", c.fname(cl)+":done-after-ready", c.fname(cl), c.pos(cl.Pos()), "sequence ["+s+"]",
+					"each per-task goroutine defers wg.Done() and receives from t.Ready() before returning", "a task is counted ready without having reported ready")
+			}
 		}
 	}
 	c.R.Floor("R-C20-4", 2)
